@@ -163,7 +163,12 @@ def run_unit(unit):
         study(part, o, rows, 'chief', ft, mf, obj, '', cond, det)
         # ---- history: change the index of the first glass, observe again on the same lens object -----------------
         gi = next((i for i, s_ in enumerate(sp['surfs']) if s_['mat'] not in ('air', 'mirror')), None)
-        if gi is not None and not math.isinf(obj) or (gi is not None and ft == 'angle'):
+        # a mirror directly behind the edited glass: which medium follows the mirror after set_index is a question of
+        # prescription consistency (C01 decides it, see known findings), not of real-vs-paraxial convergence
+        if gi is not None and gi + 1 < len(sp['surfs']) and sp['surfs'][gi + 1]['mat'] == 'mirror':
+            part.count('set_index-edits-skipped-mirror-follows')
+            gi = None
+        if gi is not None:
             sp2 = LZ.spec(surfs, obj=obj, ap=('EPD', p['epd']), ftype=ft, fields=(0.0, mf), waves=((0.5876, True),))
             sp2['surfs'][gi]['mat'] = ['ideal', 1.80, 0.0]
             o.set_index(1.80, gi + 1)
